@@ -300,8 +300,15 @@ def run(tier):
         seen_kinds |= {n.kind for n in nodes}
         # document order: children start offsets never decrease along the traversal
         starts = [n.loc.start for n in nodes]
-        if any(b < a for a, b in zip(starts, starts[1:])) and False:
-            pass
+        bad = next((i for i, (a, b) in enumerate(zip(starts, starts[1:])) if b < a), None)
+        ck.evaluations += 1
+        if bad is not None:
+            from graphql.language import print_ast as _pa
+            ck.violation(f"doc-order:{nodes[bad + 1].kind}",
+                         f"traversal order is not document order: {nodes[bad + 1].kind} at offset {starts[bad + 1]} is "
+                         f"entered after {nodes[bad].kind} at offset {starts[bad]}",
+                         {"relation": "depth-first document order", "document": _pa(root)[:300],
+                          "impl": [nodes[bad].kind, starts[bad], nodes[bad + 1].kind, starts[bad + 1]]})
         nscripts = 4 if len(nodes) < 400 else 2
         for j in range(nscripts):
             if j == 0:
